@@ -132,6 +132,9 @@ def gen_catalogue(seed):
             cfg["classes"] = [(c, t.pick(variants[:1] + variants[4:] if c == "Model" else variants, "variant"))
                               for c in names]
             cfg["procs"] = t.pick(["none", "record", "replace", "boom"], "procs")
+            # a model processor that changes the model (not idempotent): it has to run once per model, however often
+            # a cached model is handed out again
+            cfg["model_processor"] = t.chance(1, 3, "mutating-model-processor") or i in (14, 16, 18)
             if i >= 17:
                 # import provider with a search path: the directories searched are those of the provider's configuration
                 # and of the importing file, whatever was loaded before from other directories
@@ -283,6 +286,17 @@ def build_metamodel(cfg):
         procs["Tag"] = tagproc
     if procs:
         mm.register_obj_processors(procs)
+    if cfg.get("model_processor"):
+        def bump(model, metamodel):
+            for o in getattr(model, "items", None) or []:
+                if type(o).__name__ == "Def":
+                    try:
+                        o.v = (o.v or 0) + 1000
+                    except Exception:
+                        pass  # a class that rejects assignments
+                    break
+
+        mm.register_model_processor(bump)
     return mm
 
 
